@@ -13,6 +13,15 @@ Local Open Scope F_scope.
 Definition nonzero_data (x : list F) : Prop := exists n, (n < length x)%nat /\ nthF x n <> 0.
 Definition arma_nondeg (lsm lsq : list F -> nat -> list F) (x : list F) (P Q lag : nat) : Prop :=
   forall a b rho, arma_estimate lsm lsq x P Q lag = inr (a, b, rho) -> nonzero_data (arma_resid x a P).
+(* no pivot of the elimination run by the oracle [ls_exact] of C15's correspondence is zero (it has no zero tests and no pivoting) *)
+Fixpoint elim_regular (fuel : nat) (rows : list (list F)) : Prop :=
+  match fuel, rows with
+  | S f, piv :: rest =>
+      nthF piv 0 <> 0 /\ elim_regular f (map (fun r => tl (row_sub (nthF r 0 / nthF piv 0) piv r)) rest)
+  | _, _ => True
+  end.
+Definition ls_rows (y : list F) (p : nat) : list (list F) := map (fun i => mk p (cov_gram y p i) ++ [cov_rhs y p i]) (seq 0 p).
+Definition ls_exact_regular (y : list F) (p : nat) : Prop := elim_regular p (ls_rows y p).
 End NondegDefs.
 
 Section Nondeg.
